@@ -131,6 +131,19 @@ Definition store_slot (h : heap) (a : nat) (j : nat) (n : name) (v : val) : heap
       else let (h1, c') := alloc_cell h (plain n v) in set_spine h1 a (set_nth j c' (spine h a))
   end.
 
+(* ArrayValue.OwnSlot(j) (data/value_array.go): the cell at position j, private to this array: a cell that
+   is not reference-bound is replaced by a fresh copy in THIS array's spine first (CloneArrayValue shares
+   the cells between an array and its copies; whoever is about to write the cell itself - a by-reference
+   parameter bound to $b[j], $x = &$b[j], usort, array_walk - must not reach the other array) *)
+Definition own_slot (h : heap) (a : nat) (j : nat) : heap * option nat :=
+  match nth_error (spine h a) j with
+  | None => (h, None)
+  | Some c =>
+      if cref (cell_at h c) then (h, Some c)
+      else let (h1, c') := alloc_cell h {| cname := cname (cell_at h c); cval := cval (cell_at h c); cref := false |} in
+           (set_spine h1 a (set_nth j c' (spine h a)), Some c')
+  end.
+
 Definition arr_append_cell (h : heap) (a : nat) (n : name) (v : val) : heap :=
   let (h1, c) := alloc_cell h (plain n v) in set_spine h1 a (spine h a ++ [c])%list.
 
@@ -314,6 +327,62 @@ Fixpoint mutate_at (h : heap) (cont : val) (path : list key) (act : action) : he
       end
   end.
 
+(* ---- writes that go through a cell instead of replacing it
+   IndexExpression.GetZVal (by-reference parameter bound to an element) and ValueReference.resolveIndexRef
+   ($x = &$b[k]) evaluate the array expression by GetValue - no copy on the way down - and take the cell
+   at POSITION k (integer key) or the first cell named k (string key) of the last container. *)
+Definition zval_pos (h : heap) (a : nat) (k : key) : option nat :=
+  match k with
+  | KI i => if (i <? 0)%Z then None
+            else if Nat.ltb (Z.to_nat i) (List.length (spine h a)) then Some (Z.to_nat i) else None
+  | KS s => find_named h (spine h a) (NStr s) 0
+  end.
+Fixpoint ref_target (h : heap) (cont : val) (path : list key) : option (val * key) :=
+  match path with
+  | [] => None
+  | k :: rest => match rest with
+                 | [] => Some (cont, k)
+                 | _ => ref_target h (container_get h cont k) rest
+                 end
+  end.
+(* bind = true: the cell stays reference-bound afterwards (AddRefSlot is never undone) *)
+Definition ref_store (h : heap) (cont : val) (path : list key) (z : Z) (bind : bool) : heap :=
+  match ref_target h cont path with
+  | Some (VArr a, k) =>
+      match zval_pos h a k with
+      | Some j =>
+          let (h1, oc) := own_slot h a j in
+          match oc with
+          | Some c => set_cell h1 c {| cname := cname (cell_at h1 c); cval := VInt z; cref := bind || cref (cell_at h1 c) |}
+          | None => h
+          end
+      | None => h
+      end
+  | Some (VMap o, KS s) =>
+      (* ObjectValue.GetZVal: the property's own cell (CloneObjectValue gave the copy cells of its own) *)
+      match plookup (props h o) s with
+      | Some c => set_cell h c {| cname := cname (cell_at h c); cval := VInt z; cref := cref (cell_at h c) |}
+      | None => h
+      end
+  | _ => h
+  end.
+
+(* usort (std/php/array/usort.go): sort.SliceStable on the array's own spine, then OwnSlot(i).Name = "" for every i *)
+Fixpoint own_all (h : heap) (a : nat) (j : nat) (n : nat) (f : cell -> cell) : heap :=
+  match n with
+  | O => h
+  | S n' =>
+      let (h1, oc) := own_slot h a j in
+      let h2 := match oc with Some c => set_cell h1 c (f (cell_at h1 c)) | None => h1 end in
+      own_all h2 a (S j) n' f
+  end.
+Definition usort_arr (h : heap) (a : nat) : heap :=
+  let h1 := sort_spine h a in
+  own_all h1 a 0 (List.length (spine h1 a)) (fun c => {| cname := NNone; cval := cval c; cref := cref c |}).
+(* array_walk (std/php/array/array_walk.go) with a callback that produces z for every element: OwnSlot(i).Value = z *)
+Definition walk_arr (h : heap) (a : nat) (z : Z) : heap :=
+  own_all h a 0 (List.length (spine h a)) (fun c => {| cname := cname c; cval := VInt z; cref := cref c |}).
+
 (* ------------------------------------------------------------------ variables, statements *)
 Record state := { hp : heap; env : list (string * nat) }.   (* variable -> its ZVal *)
 Definition state0 : state := {| hp := heap0; env := [] |}.
@@ -397,7 +466,11 @@ Inductive stmt :=
 | SElemRead (x w : string) (k : key)                (* $x = $w[k] *)
 | SRefVar (x y : string)                            (* $x = &$y *)
 | SRefSlot (x y : string) (i : Z)                   (* $x = &$y[i] *)
-| SSetInt (x : string) (z : Z).                     (* $x = z *)
+| SSetInt (x : string) (z : Z)                      (* $x = z *)
+| SRefParamStore (b : base) (path : list key) (z : Z)  (* f(b[path])  with  function f(&$x) { $x = z; } *)
+| SRefBindStore (b : base) (path : list key) (z : Z)   (* $r = &b[path]; $r = z;   ($r stays bound: unset($r) writes null THROUGH the reference in this interpreter) *)
+| SUsort (x : string)                               (* usort($x, fn($p, $q) => $p <=> $q) *)
+| SWalkStore (x : string) (z : Z).                  (* array_walk($x, fn(&$v) ...) leaving z in every element *)
 
 Definition exec (st : state) (s : stmt) : state :=
   match s with
@@ -464,20 +537,34 @@ Definition exec (st : state) (s : stmt) : state :=
       let (st1, c) := var_cell st y in
       {| hp := hp st1; env := (x, c) :: env st1 |}
   | SRefSlot x y i =>
-      (* ArraySlotRef: slot.AddRefSlot(); c.variables[x] = slot *)
+      (* ArraySlotRef: slot := Arr.OwnSlot(Idx); slot.AddRefSlot(); c.variables[x] = slot *)
       match var_val st y with
       | VArr a =>
-          match find_slot_int (hp st) a i with
+          match zval_pos (hp st) a (KI i) with
           | Some j =>
-              let c := nth j (spine (hp st) a) 0%nat in
-              let cl := cell_at (hp st) c in
-              {| hp := set_cell (hp st) c {| cname := cname cl; cval := cval cl; cref := true |};
-                 env := (x, c) :: env st |}
+              let (h1, oc) := own_slot (hp st) a j in
+              match oc with
+              | Some c =>
+                  let cl := cell_at h1 c in
+                  {| hp := set_cell h1 c {| cname := cname cl; cval := cval cl; cref := true |};
+                     env := (x, c) :: env st |}
+              | None => st
+              end
           | None => st
           end
       | _ => st
       end
   | SSetInt x z => set_var st x (VInt z)
+  | SRefParamStore b path z => {| hp := ref_store (hp st) (base_val st b) path z false; env := env st |}
+  | SRefBindStore b path z => {| hp := ref_store (hp st) (base_val st b) path z true; env := env st |}
+  | SUsort x => match var_val st x with
+                | VArr a => {| hp := usort_arr (hp st) a; env := env st |}
+                | _ => st
+                end
+  | SWalkStore x z => match var_val st x with
+                      | VArr a => {| hp := walk_arr (hp st) a z; env := env st |}
+                      | _ => st
+                      end
   end.
 
 Definition run (prog : list stmt) (st : state) : state := fold_left exec prog st.
@@ -486,7 +573,10 @@ Definition run (prog : list stmt) (st : state) : state := fold_left exec prog st
    what a snapshot `foreach ($v as $k => $x)` sees, recursively: keys are the cell's Name when it
    has one, else the position; depth bounded by fuel *)
 Inductive tkey := TKI (i : Z) | TKS (s : string).
-Inductive tree := TNull | TInt (z : Z) | TArr (l : list (tkey * tree)) | TObjRef (o : nat).
+(* TStr: a string / float / bool as the snapshot printed it - the model never produces one (its scalars are
+   null and ints), so an implementation snapshot that contains one differs from every model snapshot,
+   and two implementation snapshots are compared representation-exactly *)
+Inductive tree := TNull | TInt (z : Z) | TArr (l : list (tkey * tree)) | TObjRef (o : nat) | TStr (s : string).
 
 Definition key_of (j : nat) (n : name) : tkey :=
   match n with NNone => TKI (Z.of_nat j) | NInt i => TKI i | NStr s => TKS s end.
